@@ -12,7 +12,7 @@ pub fn prop() -> Prop {
     Prop {
         id: "C03",
         level: "model_checking",
-        rule: "configurations = set(2) x split(3, one reading a --set variable) x filter(3, one a --set macro) x select(4, one reading a previously selected name) x unique(2) x sort(5: none, 1 key both directions, 2 keys, a selected name) x skip(3) x take(3) x {none, --group-by, --merge, --group-by on a selected name} x only-objects-and-arrays(2) = 51 840 (quick: the 17 280 with --set given and a filter); inputs = all sequences of <=2 (thorough <=3) values over 9 records (ties, items that differ only in where a nested object closes, absent and non-string keys, empty and missing arrays, a scalar, an array, integers that differ only beyond 2^53) and cyclic repetitions to 17 and 40 rows for every 13th configuration; every configuration is also run with its option groups reversed and rotated (relative order of repeated --select/--sort-by kept), and every 211th with all permutations of its option groups; and with each of --regular-expression-cache-size, --on-error=stderr/panic/stdout added at a varying position (nothing may change on a clean input); non-trivial = at least two stages are active and something is printed; distinct by construction; plus, for 10 configurations whose stage expressions read the position of a record (&index, &index-in-file) or not, every sequence of <=4 values over 2 records, an array and 3 scalars with --only-objects-and-arrays against the same sequence without its scalars; every configuration is also run in 7 other documented spellings of its command line, one per second case in rotation and all of them on the empty input (three of them mixing the spellings within one command line; second long names such as --choose/--where/--break-by/--combine/--order-by/--limit, short options, value as a separate word or attached); every fourth case with two or more records also with the records given as files, one per file; presence patterns: every sequence of <=3 (thorough <=4) records out of 9 that hold only the first, only the second, both, a third, none of the selected members or null x selections(a,b / a,b,c / b,a / a alone / none) x unique x sort(none, .a, .b DESC, .c+.a) x limits(none, skip 1, take 1, skip 1 take 2) x {none, --merge, --group-by .a}",
+        rule: "configurations = set(2) x split(3, one reading a --set variable) x filter(3, one a --set macro) x select(4, one reading a previously selected name) x unique(2) x sort(5: none, 1 key both directions, 2 keys, a selected name) x skip(3) x take(3) x {none, --group-by, --merge, --group-by on a selected name} x only-objects-and-arrays(2) = 51 840 (quick: the 17 280 with --set given and a filter); inputs = all sequences of <=2 (thorough <=3) values over 9 records (ties, items that differ only in where a nested object closes, absent and non-string keys, empty and missing arrays, a scalar, an array, integers that differ only beyond 2^53) and cyclic repetitions to 17 and 40 rows for every 13th configuration; every configuration is also run with its option groups reversed and rotated (relative order of repeated --select/--sort-by kept), and every 211th with all permutations of its option groups; and with each of --regular-expression-cache-size, --on-error=stderr/panic/stdout added at a varying position (nothing may change on a clean input); non-trivial = at least two stages are active and something is printed; distinct by construction; plus, for 10 configurations whose stage expressions read the position of a record (&index, &index-in-file) or not, every sequence of <=4 values over 2 records, an array and 3 scalars with --only-objects-and-arrays against the same sequence without its scalars; every configuration is also run in 7 other documented spellings of its command line, one per second case in rotation and all of them on the empty input (three of them mixing the spellings within one command line; second long names such as --choose/--where/--break-by/--combine/--order-by/--limit, short options, value as a separate word or attached); every sixteenth case with two or more records also with the records given as files, one per file; presence patterns: every sequence of <=3 (thorough <=4) records out of 9 that hold only the first, only the second, both, a third, none of the selected members or null x selections(a,b / a,b,c / b,a / a alone / none) x unique x sort(none, .a, .b DESC, .c+.a) x limits(none, skip 1, take 1, skip 1 take 2) x {none, --merge, --group-by .a}",
         explanation: "stdout rows are compared with the reference pipeline (pure list transformations in the documented order); argument orders are compared byte for byte with the canonical order",
         assumptions: COMMON_ASSUMPTIONS.to_vec(),
         guards: vec!["records-given-as-files", "selections-present-in-different-columns", "limits-whose-sum-exceeds-64-bits", "command-line-respelled", "scalars-removed-before-position-dependent-stages", "irrelevant-option-added", "limiter-before-grouper", "two-sort-keys-with-take", "split-reads-set-variable", "sort-by-selected-name", "all-group-permutations", "scalar-removed-by-only-objects-and-arrays", "unique-removed-a-row", "group-by-selected-name"],
@@ -171,9 +171,9 @@ fn check(ctx: &mut Ctx, cfg: &Config, ix: &[usize], inputs: &[V], orders: bool, 
             }
         }
     }
-    // the same records given as files, one record per file (every fourth case with two or more records): where the
+    // the same records given as files, one record per file (every sixteenth case with two or more records): where the
     // input comes from changes nothing - in particular not whether the end of the input reaches every stage
-    if inputs.len() >= 2 && (rot + inputs.len()) % 4 == 1 {
+    if inputs.len() >= 2 && (rot + inputs.len()) % 16 == 1 {
         let files: Vec<(String, Vec<u8>)> = inputs.iter().enumerate().map(|(i, v)| (format!("r{i}.json"), pipeline::input_text(std::slice::from_ref(v)))).collect();
         // `--merge` takes an optional value: it must not be the word before the file names
         let mut fargs = case.args.clone();
